@@ -1,9 +1,37 @@
 package c07
 
 import (
+	"flag"
+	"os"
+	"path/filepath"
+	"regexp"
+	"strings"
 	"testing"
 
 	"verifharness/vk"
 )
 
-func TestMain(m *testing.M) { vk.Main(m) }
+// TestMain is vk.Main plus two housekeeping steps: a crasher written by a native
+// fuzzing campaign can be replayed through the driver (./check C07 --replay
+// <dir>): the driver hands files named <Target>.fail to the test binary as
+// -rapid.failfile; a file in the "go test fuzz v1" format is copied into the
+// seed corpus directory of its target (relative to the scratch working
+// directory of the run) where the testing package picks it up.
+func TestMain(m *testing.M) {
+	flag.Parse()
+	if f := flag.Lookup("rapid.failfile"); f != nil && f.Value.String() != "" {
+		p := f.Value.String()
+		if data, err := os.ReadFile(p); err == nil && strings.HasPrefix(string(data), "go test fuzz v1") {
+			name := strings.TrimSuffix(filepath.Base(p), ".fail")
+			name = regexp.MustCompile(`-\d{14}-\d+$`).ReplaceAllString(name, "")
+			dir := filepath.Join("testdata", "fuzz", name)
+			if err := os.MkdirAll(dir, 0o755); err == nil {
+				_ = os.WriteFile(filepath.Join(dir, "replayed-crasher"), data, 0o644)
+			}
+		}
+	}
+	code := m.Run()
+	vk.Flush()
+	cleanupScratch()
+	os.Exit(code)
+}
